@@ -1,2 +1,321 @@
-(* Props/C01.v — under construction *)
-From SV Require Import Base.Prelude.
+(* Props/C01.v — property C01: every result is a valid symmetric array (charge
+   conservation is closed).  Statements only; proofs live in Proofs/WfProofs.v.
+
+   `wf_array` (Model/Wf.v) is the executable validity predicate that the Python
+   harness evaluates on every array the implementation returns: every index
+   table strictly sorted with valid charges and positive sizes, a fused index
+   carries sub-index bookkeeping that partitions it exactly (recursively), the
+   total charge is valid, stored sectors are distinct, each stored sector has one
+   charge per index drawn from that index's table, its signed charges combine
+   to the total charge, each block's shape is the sizes its indices assign to
+   the sector's charges and its data has that many entries.
+   `wf_fermi` (Proofs/WfProofs.v) adds the fermionic part: the base array is
+   valid, the pending-sign table is duplicate-free and names only
+   charge-conserving sectors over the tables (a listed sector carries the value
+   -1, an unlisted one +1), and the number of odd-position labels has the
+   parity of the total charge.
+
+   Every theorem is for EVERY symmetry `G` with `GroupLaws G` (plus
+   `OrderLaws G`, strict total order of the charge labels, where a table is
+   filtered), every rank, every table, every sparsity pattern and every
+   coefficient ring `R` (no ring law is needed).
+
+   What is proved: `op_wf` for transpose, conj, dagger, scale, neg, add, sub,
+   mul, multiply_diagonal, sync_charges / prune_indices, blockwise contraction
+   (= tensordot in blockwise mode and matmul), drop_misaligned_sectors,
+   expand_dims, squeeze, fuse of ONE group of >= 2 axes (on top of C05), the
+   fermionic phase operations, fermionic transpose / conj / dagger; closure
+   under ARBITRARY finite programs over exactly these instructions
+   (`C01_programs_wf_partial`); and that the invariant implies the predicate
+   the correspondence run audits, `Model.Valid.valid_array` / `valid_farray`
+   (`C01_wf_valid_array`, `C01_wf_valid_farray`, `C01_programs_valid_partial`).
+   What is missing (see `C01_full`): fuse of several groups / with empty
+   groups, unfuse, contraction in fused mode, einsum, trace, the fermionic
+   fuse / unfuse / tensordot, and the decompositions (qr / svd / eigh / solve /
+   svd_truncated). *)
+From SV Require Import Base.Prelude Base.Sym Base.Tensor Model.Sectors Model.Array Model.Arith
+  Model.Fermi Model.Wf Model.Valid Model.SymInst Proofs.OrderProofs Proofs.TdotInst Proofs.WfProofs.
+From Coq Require Import Permutation.
+Local Open Scope nat_scope.
+
+(* ---- structural ---- *)
+Theorem C01_transpose_wf :
+  forall G : Symmetry, GroupLaws G ->
+  forall (R : Ring) (x : aarray G R) (axes : list nat),
+  wf_array G R x = true -> Permutation axes (seq 0 (ndim G R x)) ->
+  wf_array G R (a_transpose G R x axes) = true.
+Proof. exact transpose_wf. Qed.
+
+Theorem C01_conj_wf :
+  forall G : Symmetry, GroupLaws G ->
+  forall (R : Ring) (x : aarray G R), wf_array G R x = true -> wf_array G R (a_conj G R x) = true.
+Proof. exact conj_wf. Qed.
+
+Theorem C01_dagger_wf :
+  forall G : Symmetry, GroupLaws G ->
+  forall (R : Ring) (x : aarray G R), wf_array G R x = true -> wf_array G R (a_dagger G R x) = true.
+Proof. exact dagger_wf. Qed.
+
+(* conjugating an index (incl. a fused one: the fused direction and the sub
+   directions flip together) keeps it valid *)
+Theorem C01_index_conj_wf :
+  forall (G : Symmetry) (ix : index G), wf_index G ix = true -> wf_index G (iconj G ix) = true.
+Proof. exact wf_index_iconj. Qed.
+
+(* ---- arithmetic ---- *)
+Theorem C01_scale_wf :
+  forall G : Symmetry, GroupLaws G ->
+  forall (R : Ring) (x : aarray G R) (c : RT R),
+  wf_array G R x = true -> wf_array G R (a_scale G R x c) = true.
+Proof. exact scale_wf. Qed.
+
+Theorem C01_neg_wf :
+  forall G : Symmetry, GroupLaws G ->
+  forall (R : Ring) (x : aarray G R), wf_array G R x = true -> wf_array G R (a_neg G R x) = true.
+Proof. exact neg_wf. Qed.
+
+Theorem C01_add_wf :
+  forall G : Symmetry, GroupLaws G ->
+  forall (R : Ring) (x y : aarray G R),
+  wf_array G R x = true -> wf_array G R y = true ->
+  indices G R x = indices G R y -> charge G R x = charge G R y ->
+  wf_array G R (a_add G R x y) = true.
+Proof. exact add_wf. Qed.
+
+Theorem C01_sub_wf :
+  forall G : Symmetry, GroupLaws G ->
+  forall (R : Ring) (x y z : aarray G R),
+  wf_array G R x = true -> a_sub G R x y = Some z -> wf_array G R z = true.
+Proof. exact sub_wf. Qed.
+
+Theorem C01_mul_wf :
+  forall G : Symmetry, GroupLaws G ->
+  forall (R : Ring) (x y : aarray G R), wf_array G R x = true -> wf_array G R (a_mul G R x y) = true.
+Proof. exact mul_wf. Qed.
+
+Theorem C01_multiply_diagonal_wf :
+  forall G : Symmetry, GroupLaws G ->
+  forall (R : Ring) (x : aarray G R) (v : bvec G R) (axis : nat),
+  wf_array G R x = true -> wf_array G R (a_multiply_diagonal G R x v axis) = true.
+Proof. exact multiply_diagonal_wf. Qed.
+
+(* ---- dropping unused charges from the tables ---- *)
+Theorem C01_index_drop_charges_wf :
+  forall G : Symmetry, GroupLaws G -> OrderLaws G ->
+  forall (ix : index G) (cs : list (C G)),
+  wf_index G ix = true -> wf_index G (drop_charges G ix cs) = true.
+Proof. exact wf_index_drop. Qed.
+
+Theorem C01_sync_charges_wf :
+  forall G : Symmetry, GroupLaws G -> forall R : Ring, OrderLaws G ->
+  forall x : aarray G R, wf_array G R x = true -> wf_array G R (a_sync_charges G R x) = true.
+Proof. exact sync_charges_wf. Qed.
+
+(* ---- contraction, blockwise strategy ---- *)
+Theorem C01_tdot_blockwise_wf :
+  forall G : Symmetry, GroupLaws G -> forall R : Ring, OrderLaws G ->
+  forall (a b : aarray G R) (aa ab : list nat),
+  wf_array G R a = true -> wf_array G R b = true ->
+  NoDup aa -> (forall i : nat, In i aa -> i < ndim G R a) ->
+  NoDup ab -> (forall i : nat, In i ab -> i < ndim G R b) ->
+  length aa = length ab ->
+  (forall k : nat, k < length aa ->
+     idual G (nth (nth k aa 0) (indices G R a) (dflt_index G)) =
+     negb (idual G (nth (nth k ab 0) (indices G R b) (dflt_index G)))) ->
+  wf_array G R (tdot_blockwise G R a b (rest_axes (ndim G R a) aa) aa ab (rest_axes (ndim G R b) ab)) = true.
+Proof. exact tdot_blockwise_wf. Qed.
+
+Theorem C01_drop_misaligned_wf :
+  forall G : Symmetry, GroupLaws G -> forall R : Ring, OrderLaws G ->
+  forall (a b : aarray G R) (aa ab : list nat),
+  wf_array G R a = true -> wf_array G R b = true ->
+  wf_array G R (fst (drop_misaligned G R a b aa ab)) = true /\
+  wf_array G R (snd (drop_misaligned G R a b aa ab)) = true.
+Proof. exact drop_misaligned_wf. Qed.
+
+(* ---- expand_dims / squeeze ---- *)
+Theorem C01_expand_dims_wf :
+  forall G : Symmetry, GroupLaws G ->
+  forall (R : Ring) (x : aarray G R) (axis : nat),
+  wf_array G R x = true -> wf_array G R (a_expand_dims G R x axis) = true.
+Proof. exact expand_dims_wf. Qed.
+
+Theorem C01_squeeze_wf :
+  forall G : Symmetry, GroupLaws G ->
+  forall (R : Ring) (x y : aarray G R) (axes : option (list nat)),
+  wf_array G R x = true -> a_squeeze G R x axes = Some y -> wf_array G R y = true.
+Proof. exact squeeze_wf. Qed.
+
+(* ---- fusing one group of axes (fuse_core = what `fuse` does after argument
+   handling; the fused index, the extents and the re-keyed blocks are valid) ---- *)
+Theorem C01_fuse_single_group_wf :
+  forall G : Symmetry, GroupLaws G -> forall R : Ring, OrderLaws G ->
+  forall (x : aarray G R) (g : list nat),
+  wf_array G R x = true -> NoDup g -> Forall (fun ax => ax < ndim G R x) g -> 2 <= length g ->
+  wf_array G R (fuse_core G R x [g]) = true.
+Proof. exact fuse_single_group_wf. Qed.
+
+Theorem C01_fuse_one_group_wf :
+  forall G : Symmetry, GroupLaws G -> forall R : Ring, OrderLaws G ->
+  forall (x : aarray G R) (g : list nat),
+  wf_array G R x = true -> NoDup g -> Forall (fun ax => ax < ndim G R x) g -> 2 <= length g ->
+  wf_array G R (a_fuse G R x [g]) = true.
+Proof. exact fuse_one_group_wf. Qed.
+
+(* ---- the fermionic invariant ---- *)
+Theorem C01_f_phase_flip_wf :
+  forall G : Symmetry, GroupLaws G ->
+  forall (R : Ring) (x : farray G R) (axs : list nat),
+  wf_fermi G R x = true -> wf_fermi G R (f_phase_flip G R x axs) = true.
+Proof. exact f_phase_flip_wf. Qed.
+
+Theorem C01_f_phase_transpose_wf :
+  forall G : Symmetry, GroupLaws G ->
+  forall (R : Ring) (x : farray G R) (perm : option (list nat)),
+  wf_fermi G R x = true -> wf_fermi G R (f_phase_transpose G R x perm) = true.
+Proof. exact f_phase_transpose_wf. Qed.
+
+Theorem C01_f_phase_global_wf :
+  forall G : Symmetry, GroupLaws G ->
+  forall (R : Ring) (x : farray G R),
+  wf_fermi G R x = true -> wf_fermi G R (f_phase_global G R x) = true.
+Proof. exact f_phase_global_wf. Qed.
+
+Theorem C01_f_phase_sector_wf :
+  forall G : Symmetry, GroupLaws G ->
+  forall (R : Ring) (x : farray G R) (s : list (C G)),
+  wf_fermi G R x = true ->
+  sector_ok G (indices G R (fbase G R x)) (charge G R (fbase G R x)) s = true ->
+  wf_fermi G R (f_phase_sector G R x s) = true.
+Proof. exact f_phase_sector_wf. Qed.
+
+Theorem C01_f_phase_sync_wf :
+  forall G : Symmetry, GroupLaws G ->
+  forall (R : Ring) (x : farray G R), wf_fermi G R x = true -> wf_fermi G R (f_phase_sync G R x) = true.
+Proof. exact f_phase_sync_wf. Qed.
+
+Theorem C01_f_transpose_wf :
+  forall G : Symmetry, GroupLaws G ->
+  forall (R : Ring) (x : farray G R) (axes : list nat) (phase : bool),
+  wf_fermi G R x = true -> Permutation axes (seq 0 (ndim G R (fbase G R x))) ->
+  wf_fermi G R (f_transpose G R x axes phase) = true.
+Proof. exact f_transpose_wf. Qed.
+
+Theorem C01_f_conj_wf :
+  forall G : Symmetry, GroupLaws G ->
+  forall (R : Ring) (x : farray G R) (pp pd : bool),
+  wf_fermi G R x = true -> wf_fermi G R (f_conj G R x pp pd) = true.
+Proof. exact f_conj_wf. Qed.
+
+Theorem C01_f_dagger_wf :
+  forall G : Symmetry, GroupLaws G ->
+  forall (R : Ring) (x : farray G R) (pd : bool),
+  wf_fermi G R x = true -> wf_fermi G R (f_dagger G R x pd) = true.
+Proof. exact f_dagger_wf. Qed.
+
+(* ---- programs ----
+   `instr G R` (Proofs/WfProofs.v) has one constructor per proved operation;
+   `run prog (ra, rf)` executes a program over an abelian and a fermionic
+   register file, appending each result; `None` = some operation raises (its
+   executable side condition fails: axes not a permutation, operands of `+` on
+   different indices / charge, contracted legs not opposite, `a_sub`/`a_squeeze`
+   returning None, register out of range).  For every finite program: all
+   registers valid before => all registers valid after. *)
+Theorem C01_programs_wf_partial :
+  forall G : Symmetry, GroupLaws G -> forall R : Ring, OrderLaws G ->
+  forall (prog : list (instr G R)) (st st' : regfile G R),
+  wf_regs G R st -> run G R prog st = Some st' -> wf_regs G R st'.
+Proof. exact programs_wf. Qed.
+
+(* the five built-in symmetries (generated definitions), any ring *)
+Theorem C01_programs_wf_builtin_partial :
+  forall (G : Symmetry) (R : Ring) (prog : list (instr G R)) (st st' : regfile G R),
+  builtin_sym G -> wf_regs G R st -> run G R prog st = Some st' -> wf_regs G R st'.
+Proof. exact programs_wf_builtin. Qed.
+
+(* ---- the invariant implies the audited predicate (Model/Valid.v) ---- *)
+Theorem C01_wf_valid_array :
+  forall G : Symmetry, GroupLaws G -> forall R : Ring, OrderLaws G ->
+  forall x : aarray G R, wf_array G R x = true -> valid_array G R x = true.
+Proof. exact wf_valid_array. Qed.
+
+Theorem C01_wf_valid_farray :
+  forall G : Symmetry, GroupLaws G -> forall R : Ring, OrderLaws G ->
+  forall x : farray G R, wf_fermi G R x = true -> valid_farray G R x (fphases G R x) = true.
+Proof. exact wf_valid_farray. Qed.
+
+Theorem C01_programs_valid_partial :
+  forall G : Symmetry, GroupLaws G -> forall R : Ring, OrderLaws G ->
+  forall (prog : list (instr G R)) (st st' : regfile G R),
+  wf_regs G R st -> run G R prog st = Some st' -> valid_regs G R st'.
+Proof. exact programs_valid. Qed.
+
+Theorem C01_programs_valid_builtin_partial :
+  forall (G : Symmetry) (R : Ring) (prog : list (instr G R)) (st st' : regfile G R),
+  builtin_sym G -> wf_regs G R st -> run G R prog st = Some st' -> valid_regs G R st'.
+Proof. exact programs_valid_builtin. Qed.
+
+(* ---- the full statement: what is still missing ----
+   `C01_full` = the `op_wf` statements of the model operations that are NOT yet
+   instructions of `instr` (once proved they extend `instr`/`run` and the
+   induction of `programs_wf` goes through unchanged).  Not proved here.  The
+   decompositions (qr, svd, eigh, solve, svd_truncated) are not listed because
+   Model/ has no definition of them yet. *)
+Definition fuse_groups_ok (n : nat) (groups : list (list nat)) : Prop :=
+  NoDup (concat groups) /\ forall i, In i (concat groups) -> i < n.
+
+Definition C01_full : Prop :=
+  forall G : Symmetry, GroupLaws G -> OrderLaws G -> forall R : Ring,
+  (* fuse, any number of groups, empty groups expanded (one group of >= 2 axes: proved above) *)
+  (forall (x : aarray G R) groups, wf_array G R x = true -> fuse_groups_ok (ndim G R x) groups ->
+     wf_array G R (a_fuse G R x groups) = true) /\
+  (* unfuse one axis / all axes *)
+  (forall (x y : aarray G R) axis, wf_array G R x = true -> a_unfuse G R x axis = Some y ->
+     wf_array G R y = true) /\
+  (forall x : aarray G R, wf_array G R x = true -> wf_array G R (a_unfuse_all G R x) = true) /\
+  (* tensordot front end in every mode, matmul, einsum *)
+  (forall (a b c : aarray G R) axes mode aa ab, wf_array G R a = true -> wf_array G R b = true ->
+     parse_axes (ndim G R a) (ndim G R b) axes = Some (aa, ab) -> contract_ok G R a b aa ab = true ->
+     a_tensordot G R a b axes mode = Some c -> wf_array G R c = true) /\
+  (forall (x y : aarray G R) lhs rhs, wf_array G R x = true -> a_einsum G R x lhs rhs = Some y ->
+     wf_array G R y = true) /\
+  (* fermionic fuse / unfuse / contraction *)
+  (forall (x : farray G R) groups, wf_fermi G R x = true ->
+     fuse_groups_ok (ndim G R (fbase G R x)) groups -> wf_fermi G R (f_fuse G R x groups) = true) /\
+  (forall (x y : farray G R) axis, wf_fermi G R x = true -> f_unfuse G R x axis = Some y ->
+     wf_fermi G R y = true) /\
+  (forall (a b c : farray G R) axes mode, wf_fermi G R a = true -> wf_fermi G R b = true ->
+     f_tensordot G R a b axes mode = Some c -> wf_fermi G R c = true).
+
+Print Assumptions C01_transpose_wf.
+Print Assumptions C01_conj_wf.
+Print Assumptions C01_dagger_wf.
+Print Assumptions C01_index_conj_wf.
+Print Assumptions C01_scale_wf.
+Print Assumptions C01_neg_wf.
+Print Assumptions C01_add_wf.
+Print Assumptions C01_sub_wf.
+Print Assumptions C01_mul_wf.
+Print Assumptions C01_multiply_diagonal_wf.
+Print Assumptions C01_index_drop_charges_wf.
+Print Assumptions C01_sync_charges_wf.
+Print Assumptions C01_tdot_blockwise_wf.
+Print Assumptions C01_drop_misaligned_wf.
+Print Assumptions C01_expand_dims_wf.
+Print Assumptions C01_squeeze_wf.
+Print Assumptions C01_fuse_single_group_wf.
+Print Assumptions C01_fuse_one_group_wf.
+Print Assumptions C01_wf_valid_array.
+Print Assumptions C01_wf_valid_farray.
+Print Assumptions C01_programs_valid_partial.
+Print Assumptions C01_programs_valid_builtin_partial.
+Print Assumptions C01_f_phase_flip_wf.
+Print Assumptions C01_f_phase_transpose_wf.
+Print Assumptions C01_f_phase_global_wf.
+Print Assumptions C01_f_phase_sector_wf.
+Print Assumptions C01_f_phase_sync_wf.
+Print Assumptions C01_f_transpose_wf.
+Print Assumptions C01_f_conj_wf.
+Print Assumptions C01_f_dagger_wf.
+Print Assumptions C01_programs_wf_partial.
+Print Assumptions C01_programs_wf_builtin_partial.
